@@ -7,4 +7,8 @@ RRepeats == {33}
 RFactors == {<<3, 2>>, <<1, 2>>}
 ROps == {"Add", "AddWithCount", "AddBin", "AddRepeat", "Merge", "CopyTo", "Clear", "Reweight", "EncDec", "Proto", "Read"}
 RInit == (1 :> NewStore("exact", 0)) @@ (2 :> NewStore("exact", 0))
+RSlotKeys == (1 :> {0, 2, 4}) @@ (2 :> {0, 2, 4})
+RAsc == {}
+RDesc == {}
+RPairs == {}
 ====
